@@ -1,5 +1,478 @@
-import Props.Lemmas.C14_Inv
+/-
+  C14 — `!py` expressions and `pypyr.steps.py` blocks read every context key as a plain variable
+  (from every scope nesting, before pyimport names, before builtins) and never add, remove or rebind
+  a context key, except for what a py block passes to `save(...)`; in-place mutations of mutable
+  context values stay visible.
+
+  Property theorems about the binding-only model `PypyrModel/PyNs.lean`. All of them are for EVERY
+  expression / block of the model language, every state (context, imports, builtins, heap — also
+  ill-formed heaps), every fuel, and hold whether the evaluation returns or raises (the final state
+  is what is constrained). Helper lemmas: `Props/Lemmas/C14_Inv.lean` (invariant principle for the
+  six mutual evaluators), `C14_Stmt.lean` (the same for statements/blocks), `C14_Env.lean`
+  (`dict.update` facts), `C14_Frame.lean` (the two instances, `load` unfoldings).
+
+  What the model is and is not: see the header of `PyNs.lean` — a model of NAME BINDING under
+  CPython 3.12's compilation scheme over pypyr's namespace objects; the scheme itself is validated by
+  the correspondence harness only.
+-/
+import Props.Lemmas.C14_Frame
+
 namespace Pypyr.C14
 open Pypyr.PyNs
-theorem placeholder : True := trivial
+
+/-! ### the world of the non-vacuity examples
+  context `{a, len, T: (1, 2), L: [7]}`; pyimport registered `math` and (shadowed) `a`;
+  builtins `len`, `abs`. -/
+def exSt : St :=
+  { ctx := [("a", .tok .ctx "a"), ("len", .tok .ctx "len"), ("T", .ref 0), ("L", .ref 1)]
+    imps := [("math", .tok .mod "math"), ("a", .tok .imp "a")]
+    hidden := [("__builtins__", builtinsTok)]
+    scratch := []
+    ns := []
+    bi := [("len", .tok .bi "len"), ("abs", .tok .bi "abs")]
+    heap := [.tuple [.cst 1, .cst 2], .list [.cst 7]]
+    saved := [] }
+
+/-- `((x := a), [(y := i) for i in T if a for j in T], (lambda p: (q := p))(a), L.append(len))` -/
+def exExpr : Expr :=
+  .tuple [.walrus "x" (.name "a"),
+          .comp false (.walrus "y" (.name "i")) [("i", .name "T", [.name "a"]), ("j", .name "T", [])],
+          .call (.lam ["p"] (.walrus "q" (.name "p"))) [.name "a"],
+          .append (.name "L") (.name "len")]
+
+/-- ```
+    x = a
+    import os as math
+    def f(p): global g; g = p; loc = a; return (lambda: loc)()
+    class C: a = len
+    r = f(a)
+    L.append(r)
+    save('r', 'g', 'f', k=C)
+    del a
+    ``` -/
+def exBlock : List Stmt :=
+  [.assign "x" (.name "a"),
+   .imp "math" (.tok .mod "os"),
+   .def_ "f" ["p"] ["g"] [("g", .name "p"), ("loc", .name "a")] (.call (.lam [] (.name "loc")) []),
+   .cls "C" [("a", .name "len")],
+   .assign "r" (.call (.name "f") [.name "a"]),
+   .expr (.append (.name "L") (.name "r")),
+   .save ["r", "g", "f"] [("k", .name "C")],
+   .del "a"]
+
+/-! ### 1. `!py` cannot touch the context (repaired `get_eval_string`) -/
+
+/-- `eval_frame`: for the repaired arrangement `eval(src, ns, ns.new_child())`, for EVERY expression,
+    fuel and state — whether the evaluation returns or raises — the context afterwards IS the context
+    before (same key list in the same order, same bindings), and so are the pyimport mapping, the
+    builtins and the save log; the throw-away child map is gone. (Only the heap and the raw dict slot
+    of the namespace object — `hidden`, finding E4 — can differ.) -/
+theorem eval_frame (fuel : Nat) (st : St) (e : Expr) :
+    (runEval false fuel st e).2.ctx = st.ctx ∧
+    (runEval false fuel st e).2.imps = st.imps ∧
+    (runEval false fuel st e).2.bi = st.bi ∧
+    (runEval false fuel st e).2.saved = st.saved ∧
+    (runEval false fuel st e).2.scratch = [] := by
+  have h := evalExpr_evalFixed_rest fuel
+    { kind := .module, chain := [], explicit := e.compWalrus } e { st with scratch := [] }
+  simp only [St.evalRest, Prod.mk.injEq] at h
+  exact ⟨h.1, h.2.1, h.2.2.2.1, h.2.2.2.2, rfl⟩
+
+/-- The example expression runs to completion with three assignment expressions at three different
+    nestings; the comprehension one lands in the raw dict slot, none in the context. -/
+example : (runEval false 30 exSt exExpr).2.hidden = [("__builtins__", builtinsTok), ("y", .cst 2)] ∧
+    (runEval false 30 exSt exExpr).2.ctx = exSt.ctx ∧
+    seqItems (runEval false 30 exSt exExpr).2.heap (.ref 1) = some [.cst 7, .tok .ctx "len"] := by
+  decide +kernel
+
+/-- `eval_frame_nested`: the same at every scope nesting (inside lambdas, comprehensions, calls of
+    closures found in the heap), not only for the top-level entry point. -/
+theorem eval_frame_nested (fuel : Nat) (sc : Scope) (st : St) (e : Expr) :
+    (evalExpr .evalFixed fuel sc e st).2.ctx = st.ctx ∧
+    (evalExpr .evalFixed fuel sc e st).2.imps = st.imps := by
+  have h := evalExpr_evalFixed_rest fuel sc e st
+  simp only [St.evalRest, Prod.mk.injEq] at h
+  exact ⟨h.1, h.2.1⟩
+
+example : (evalExpr .evalFixed 30 { kind := .func, chain := [], explicit := [] } exExpr exSt).2.hidden =
+    [("__builtins__", builtinsTok), ("x", .tok .ctx "a"), ("y", .cst 2)] := by decide +kernel
+
+/-! ### 2. … which the code before commit 62901c4 did not guarantee (F6) -/
+
+/-- `walrus_leak_pre_fix`: the witness. With `eval(src, ns)` (locals is globals) the top-level
+    assignment expression `(x := 5)` ADDS key `x` to the context; with the repaired arrangement the
+    same expression leaves the context as it was. -/
+theorem walrus_leak_pre_fix :
+    (runEval true 5 exSt (.walrus "x" (.const 5))).2.ctx = exSt.ctx ++ [("x", .cst 5)] ∧
+    (runEval false 5 exSt (.walrus "x" (.const 5))).2.ctx = exSt.ctx := by
+  decide +kernel
+
+/-- `walrus_leak_pre_fix_all`: not an accident of the example — before the fix `(x := n)` stored into
+    the context for every state, name and constant (adding the key or REBINDING an existing one). -/
+theorem walrus_leak_pre_fix_all (fuel : Nat) (st : St) (x : String) (n : Nat) :
+    (runEval true (fuel + 2) st (.walrus x (.const n))).2.ctx = st.ctx.set x (.cst n) := by
+  simp [runEval, evalExpr, store, chainStore, Expr.compWalrus, storeName]
+
+example : (runEval true 2 exSt (.walrus "a" (.const 5))).2.ctx.get? "a" = some (.cst 5) := by
+  decide +kernel
+
+/-! ### 3. a py block changes the context only through `save` -/
+
+/-- `exec_frame`: for EVERY block, fuel and state — whether the block finishes or raises half way —
+    there is a list `log` of `(key, value)` pairs, exactly what the block's `save(...)` calls handed
+    to `context.update` (the ghost log `saved` grew by it), such that the context afterwards is the
+    context before `dict.update`d with `log`, and every logged key is one the block names literally
+    in a `save(...)` (positional name or keyword). Nothing else is touched: pyimport mapping,
+    builtins, the `!py` namespace object; the exec namespace dict is dropped. So locals, imports,
+    function and class definitions, `__builtins__` and `save` itself reach the context only when
+    saved by name. -/
+theorem exec_frame (fuel : Nat) (st : St) (b : List Stmt) :
+    ∃ log : Env,
+      (runPyStep fuel st b).2.saved = st.saved ++ log ∧
+      (runPyStep fuel st b).2.ctx = st.ctx.update log ∧
+      (∀ k ∈ Env.keys log, k ∈ blockSaveKeys b) ∧
+      (runPyStep fuel st b).2.imps = st.imps ∧
+      (runPyStep fuel st b).2.bi = st.bi ∧
+      (runPyStep fuel st b).2.hidden = st.hidden ∧
+      (runPyStep fuel st b).2.scratch = st.scratch ∧
+      (runPyStep fuel st b).2.ns = [] := by
+  obtain ⟨log, h1, h2, h3, h4, h5, h6, h7⟩ := execBlock_exec_saved fuel
+    { kind := .module, chain := [], explicit := blockExplicit b } b { st with ns := pyStepNs st.ctx }
+  exact ⟨log, h1, h2, h3, h4, h7, h5, h6, rfl⟩
+
+/-- The example block binds `x`, `math`, `f`, `C`, `r`, `g` and deletes its copy of `a`; the context
+    gets exactly the four saved keys (after the existing ones) and keeps `a`. -/
+example : (runPyStep 30 exSt exBlock).2.ctx =
+      exSt.ctx ++ [("r", .tok .ctx "a"), ("g", .tok .ctx "a"), ("f", .ref 2), ("k", .ref 3)] ∧
+    (runPyStep 30 exSt exBlock).2.saved =
+      [("r", .tok .ctx "a"), ("g", .tok .ctx "a"), ("f", .ref 2), ("k", .ref 3)] ∧
+    blockSaveKeys exBlock = ["r", "g", "f", "k"] ∧
+    seqItems (runPyStep 30 exSt exBlock).2.heap (.ref 1) = some [.cst 7, .tok .ctx "a"] := by
+  decide +kernel
+
+/-- `exec_keys_kept`: no context key is ever removed or moved by a py block: the old key list is a
+    prefix of the new one (`del a` in the block deletes the block's copy only). -/
+theorem exec_keys_kept (fuel : Nat) (st : St) (b : List Stmt) :
+    Env.keys st.ctx <+: Env.keys (runPyStep fuel st b).2.ctx := by
+  obtain ⟨log, _, h2, _⟩ := exec_frame fuel st b
+  rw [h2]; exact Env.keys_update_prefix _ _
+
+example : (runPyStep 30 exSt [.del "a", .assign "T" (.const 0)]).2.ctx = exSt.ctx := by decide +kernel
+
+/-- `exec_only_saved_keys_change`: a key the block does not name in a `save(...)` reads after the
+    block exactly as before it — not added, not removed, not rebound. -/
+theorem exec_only_saved_keys_change (fuel : Nat) (st : St) (b : List Stmt) (k : String)
+    (hk : k ∉ blockSaveKeys b) : (runPyStep fuel st b).2.ctx.get? k = st.ctx.get? k := by
+  obtain ⟨log, _, h2, h3, _⟩ := exec_frame fuel st b
+  rw [h2]; exact Env.get?_update_of_not_mem _ _ _ (fun h => hk (h3 k h))
+
+example : "x" ∉ blockSaveKeys exBlock ∧ "math" ∉ blockSaveKeys exBlock ∧ "C" ∉ blockSaveKeys exBlock ∧
+    "__builtins__" ∉ blockSaveKeys exBlock ∧ "save" ∉ blockSaveKeys exBlock ∧ "a" ∉ blockSaveKeys exBlock := by
+  decide +kernel
+
+/-- `exec_bindings_old_or_saved`: every binding of the context after the block is a binding it had
+    before or a pair that a `save(...)` call of the block passed. -/
+theorem exec_bindings_old_or_saved (fuel : Nat) (st : St) (b : List Stmt) (k : String) (v : V)
+    (h : (runPyStep fuel st b).2.ctx.get? k = some v) :
+    st.ctx.get? k = some v ∨
+      ∃ log : Env, (runPyStep fuel st b).2.saved = st.saved ++ log ∧ (k, v) ∈ log := by
+  obtain ⟨log, h1, h2, _⟩ := exec_frame fuel st b
+  rw [h2] at h
+  rcases Env.get?_update_cases _ _ _ _ h with h3 | h3
+  · exact Or.inl h3
+  · exact Or.inr ⟨log, h1, h3⟩
+
+example : (runPyStep 30 exSt exBlock).2.ctx.get? "f" = some (.ref 2) ∧ exSt.ctx.get? "f" = Option.none := by
+  decide +kernel
+
+/-- `exec_no_save_no_change`: a block without a `save(...)` statement leaves the context exactly as
+    it was. -/
+theorem exec_no_save_no_change (fuel : Nat) (st : St) (b : List Stmt) (hb : blockSaveKeys b = []) :
+    (runPyStep fuel st b).2.ctx = st.ctx := by
+  obtain ⟨log, _, h2, h3, _⟩ := exec_frame fuel st b
+  have : log = [] := by
+    cases log with
+    | nil => rfl
+    | cons p rest => exact absurd (h3 p.1 (by simp [Env.keys])) (by simp [hb])
+  rw [h2, this]; rfl
+
+example : blockSaveKeys (exBlock.take 6 ++ [.del "a"]) = [] ∧
+    (runPyStep 30 exSt (exBlock.take 6 ++ [.del "a"])).2.heap.length = 7 := by decide +kernel
+
+/-- `save_passes_namespace_bindings`: what a successful `save('n1', …)` passes: the context becomes
+    the old one updated with a dict whose every entry `(k, v)` has `k` among the names and `v` the
+    object `k` is bound to in the block's namespace at that moment. -/
+theorem save_passes_namespace_bindings (fuel : Nat) (sc : Scope) (st st' : St) (names : List String)
+    (h : execStmt .exec fuel sc (.save names []) st = (.ok (), st')) :
+    ∃ d : Env, st' = doSave st d ∧
+      ∀ k v, d.get? k = some v → k ∈ names ∧ st.ns.get? k = some v := by
+  simp only [execStmt, evalKws] at h
+  split at h
+  · cases h
+  · split at h
+    · cases h
+    · split at h
+      · cases h
+      · rename_i d hd
+        simp only [Env.update_nil, Prod.mk.injEq, true_and] at h
+        refine ⟨d, h.symm, ?_⟩
+        intro k v hkv
+        constructor
+        · have : k ∈ Env.keys d := by
+            apply Classical.byContradiction
+            intro hn
+            rw [(Env.get?_eq_none_iff d k).2 hn] at hkv
+            cases hkv
+          rcases saveNames_keys _ _ _ _ hd k this with h2 | h2
+          · simp [Env.keys] at h2
+          · exact h2
+        · rcases saveNames_values _ _ _ _ hd k v hkv with h2 | h2
+          · simp [Env.get?] at h2
+          · exact h2
+
+example : (execStmt .exec 5 { kind := .module, chain := [], explicit := [] } (.save ["a", "T"] [])
+    { exSt with ns := pyStepNs exSt.ctx }).2.saved = [("a", .tok .ctx "a"), ("T", .ref 0)] := by
+  decide +kernel
+
+/-! ### 4. pyimport names live beside the context, never in it -/
+
+/-- `imports_beside_context`: `pyimport` changes the imports mapping and nothing else (the context
+    in particular); and afterwards a `!py` read of ANY name `x` resolves, in this order, to: the
+    context's binding; the newly imported binding (the last one for `x`); an earlier import; the raw
+    dict slot of the namespace object (`__builtins__`, E1/E4); the builtins; else NameError. -/
+theorem imports_beside_context (fuel : Nat) (st : St) (bindings : Env) (x : String) :
+    (runPyImport st bindings).ctx = st.ctx ∧
+    (runPyImport st bindings).bi = st.bi ∧
+    (runPyImport st bindings).hidden = st.hidden ∧
+    (runPyImport st bindings).heap = st.heap ∧
+    (runPyImport st bindings).saved = st.saved ∧
+    (runEval false (fuel + 1) (runPyImport st bindings) (.name x)).1 =
+      optRes (orElse (st.ctx.get? x) (orElse (Env.get? bindings.reverse x) (orElse (st.imps.get? x)
+        (orElse (st.hidden.get? x) (st.bi.get? x))))) := by
+  refine ⟨rfl, rfl, rfl, rfl, rfl, ?_⟩
+  rw [runEval_name]
+  simp only [Bool.false_eq_true, if_false, loadName, localsGetItem, globalsRaw, runPyImport,
+    Env.get?_nil, orElse_none_left, Env.get?_update, orElse_assoc]
+
+example : (runEval false 1 (runPyImport exSt [("os", .tok .mod "os"), ("abs", .tok .imp "abs")])
+      (.name "abs")).1 = .ok (.tok .imp "abs") ∧
+    (runEval false 1 (runPyImport exSt [("os", .tok .mod "os")]) (.name "abs")).1 = .ok (.tok .bi "abs") :=
+  ⟨rfl, rfl⟩
+
+/-- `import_visible`: a name bound by pyimport and not a context key resolves to the imported
+    object — at top level and inside a lambda. -/
+theorem import_visible (fuel : Nat) (st : St) (bindings : Env) (x : String) (v : V)
+    (hc : st.ctx.get? x = Option.none) (hb : Env.get? bindings.reverse x = some v) :
+    (runEval false (fuel + 1) (runPyImport st bindings) (.name x)).1 = .ok v ∧
+    (runEval false (fuel + 4) (runPyImport st bindings) (.call (.lam [] (.name x)) [])).1 = .ok v := by
+  constructor
+  · rw [(imports_beside_context fuel st bindings x).2.2.2.2.2, hc, hb]; rfl
+  · simp only [runEval, Bool.false_eq_true, if_false]
+    rw [lambda_reads_global _ _ _ _ _ rfl]
+    simp only [loadGlobal, globalsGetItem, runPyImport, Env.get?_update, hc, hb]
+    rfl
+
+example : exSt.ctx.get? "os" = Option.none ∧
+    Env.get? [("os", V.tok .mod "os"), ("abs", .tok .imp "abs")].reverse "os" = some (.tok .mod "os") := by
+  decide +kernel
+
+/-- `context_shadows_import`: a name that is both a context key and a pyimport name reads as the
+    context's value (the import never replaces it) — at top level and inside a lambda. -/
+theorem context_shadows_import (fuel : Nat) (st : St) (bindings : Env) (x : String) (v : V)
+    (hc : st.ctx.get? x = some v) :
+    (runEval false (fuel + 1) (runPyImport st bindings) (.name x)).1 = .ok v ∧
+    (runEval false (fuel + 4) (runPyImport st bindings) (.call (.lam [] (.name x)) [])).1 = .ok v := by
+  constructor
+  · rw [(imports_beside_context fuel st bindings x).2.2.2.2.2, hc]; rfl
+  · simp only [runEval, Bool.false_eq_true, if_false]
+    rw [lambda_reads_global _ _ _ _ _ rfl]
+    simp only [loadGlobal, globalsGetItem, runPyImport, hc]
+    rfl
+
+example : (runEval false 4 (runPyImport exSt [("len", .tok .imp "len")]) (.call (.lam [] (.name "len")) [])).1 =
+    .ok (.tok .ctx "len") := rfl
+
+/-- `builtins_last`: a name that neither the context nor any pyimport binds falls through to the
+    builtins (at top level after the raw dict slot, which holds `__builtins__`; inside a lambda
+    directly). -/
+theorem builtins_last (fuel : Nat) (st : St) (bindings : Env) (x : String)
+    (hc : st.ctx.get? x = Option.none) (hb : Env.get? bindings.reverse x = Option.none)
+    (hi : st.imps.get? x = Option.none) :
+    (runEval false (fuel + 1) (runPyImport st bindings) (.name x)).1 =
+      optRes (orElse (st.hidden.get? x) (st.bi.get? x)) ∧
+    (runEval false (fuel + 4) (runPyImport st bindings) (.call (.lam [] (.name x)) [])).1 =
+      optRes (st.bi.get? x) := by
+  constructor
+  · rw [(imports_beside_context fuel st bindings x).2.2.2.2.2, hc, hb, hi]; rfl
+  · simp only [runEval, Bool.false_eq_true, if_false]
+    rw [lambda_reads_global _ _ _ _ _ rfl]
+    simp only [loadGlobal, globalsGetItem, runPyImport, Env.get?_update, hc, hb, hi]
+    rfl
+
+example : (runEval false 4 (runPyImport exSt [("os", .tok .mod "os")]) (.call (.lam [] (.name "abs")) [])).1 =
+      .ok (.tok .bi "abs") ∧
+    (runEval false 1 exSt (.name "__builtins__")).1 = .ok builtinsTok ∧
+    (runEval false 4 exSt (.call (.lam [] (.name "__builtins__")) [])).1 = .err .nameError :=
+  ⟨rfl, rfl, rfl⟩
+
+/-! ### 5. context keys are variables in every scope -/
+
+/-- `eval_reads_context_everywhere`: under both `!py` arrangements, in EVERY scope (`sc`: module
+    level, inside any nesting of lambdas / generator expressions / inlined comprehensions — any frame
+    chain, any heap), a read of a context key `x` yields the context's value, provided no enclosing
+    local scope declares `x` (`chainLoad` does not hit: it misses, or finds `x` declared `global`).
+    Imports and builtins of the same name do not matter. Two side conditions, both on what the
+    model's scopes can be: `hkind` — the scope is not directly a class body (those exist only in py
+    blocks, see `exec_reads_context_everywhere`); `hscr` — at module level of the repaired
+    arrangement an earlier top-level `(x := …)` of the SAME expression shadows the key in the
+    throw-away child map (E5), so that map must not bind `x`. -/
+theorem eval_reads_context_everywhere (old : Bool) (sc : Scope) (st : St) (x : String) (v : V)
+    (hchain : chainLoad st.heap x sc.chain = .miss ∨ chainLoad st.heap x sc.chain = .declGlobal)
+    (hkind : ∀ r, sc.kind ≠ .cls r)
+    (hscr : sc.kind = .module → sc.explicit.contains x = false → st.scratch.get? x = Option.none)
+    (hctx : st.ctx.get? x = some v) :
+    load (if old then .evalOld else .evalFixed) sc st x = .ok v := by
+  have hg : ∀ a : Arr, a ≠ .exec → loadGlobal a st x = some v := by
+    intro a ha
+    cases a <;> first | exact absurd rfl ha | simp [loadGlobal, globalsGetItem, hctx, orElse]
+  have ha : (if old then Arr.evalOld else Arr.evalFixed) ≠ .exec := by cases old <;> simp
+  rcases hchain with h | h
+  · cases hk : sc.kind with
+    | module =>
+      rw [load_of_miss_module _ _ _ _ h hk]
+      split
+      · rw [hg _ ha]; rfl
+      · rename_i hex
+        have hs := hscr hk (by simpa using hex)
+        cases old <;> simp [loadName, localsGetItem, hctx, hs, orElse, optRes]
+    | func => rw [load_of_miss_func _ _ _ _ h hk, hg _ ha]; rfl
+    | cls r => exact absurd hk (hkind r)
+  · rw [load_of_declGlobal _ _ _ _ h, hg _ ha]; rfl
+
+/-- Non-vacuity on run-time scopes: the read of `a` happens three scopes deep —
+    `(lambda p: [*( (lambda: (i, j, a, len))() for i in T for j in T )])(a)` — and, with a shadowing
+    parameter, does NOT see the context: `(lambda a: a)(len)`. -/
+example : seqItems (runEval false 40 exSt (.call (.lam ["p"] (.comp true (.call (.lam [] (.tuple [.name "i", .name "j", .name "a", .name "len"])) [])
+      [("i", .name "T", []), ("j", .name "T", [])])) [.name "a"])).2.heap (.ref 7) =
+      some [.cst 1, .cst 1, .tok .ctx "a", .tok .ctx "len"] ∧
+    (runEval false 40 exSt (.call (.lam ["a"] (.name "a")) [.name "len"])).1 = .ok (.tok .ctx "len") :=
+  ⟨by decide +kernel, rfl⟩
+
+/-- the hypotheses of the theorem on a scope with two live frames (a function frame declaring `p`
+    and a comprehension frame declaring `i`) -/
+example :
+    let st : St := { exSt with heap := exSt.heap ++
+      [.frame { declared := ["p"], globals := [], isComp := false, vars := [("p", .cst 0)] },
+       .frame { declared := ["i"], globals := [], isComp := true, vars := [] }] }
+    chainLoad st.heap "a" [3, 2] = .miss ∧ chainLoad st.heap "p" [3, 2] = .val (.cst 0) ∧
+    load .evalFixed { kind := .func, chain := [3, 2], explicit := [] } st "a" = .ok (.tok .ctx "a") :=
+  ⟨by decide +kernel, by decide +kernel, rfl⟩
+
+/-- `exec_reads_context_everywhere`: the py step's namespace starts as a copy of the context (plus
+    `__builtins__`, `save`), so every context key other than those two names reads as the context's
+    value in EVERY scope of the block (module level, function bodies, lambdas, comprehensions, class
+    bodies) as long as the block's own namespace still binds it to that value (module-level
+    assignments of the block rebind the COPY — that is the local shadowing of this arrangement), no
+    enclosing local scope declares it, and — directly in a class body — the class namespace does not
+    bind it. -/
+theorem exec_reads_context_everywhere (sc : Scope) (st : St) (x : String) (v : V)
+    (hchain : chainLoad st.heap x sc.chain = .miss ∨ chainLoad st.heap x sc.chain = .declGlobal)
+    (hcls : ∀ r, sc.kind = .cls r → clsGet st.heap r x = Option.none)
+    (hns : st.ns.get? x = some v) :
+    load .exec sc st x = .ok v := by
+  rcases hchain with h | h
+  · cases hk : sc.kind with
+    | module =>
+      rw [load_of_miss_module _ _ _ _ h hk]
+      split <;> simp [loadGlobal, loadName, localsGetItem, globalsGetItem, hns, orElse, optRes]
+    | func =>
+      rw [load_of_miss_func _ _ _ _ h hk]
+      simp [loadGlobal, globalsGetItem, hns, orElse, optRes]
+    | cls r =>
+      rw [load_of_miss_cls _ _ _ _ r h hk, hcls r hk]
+      simp [globalsRaw, hns, orElse, optRes]
+  · rw [load_of_declGlobal _ _ _ _ h]
+    simp [loadGlobal, globalsGetItem, hns, orElse, optRes]
+
+/-- `py_step_namespace_is_context_copy`: the namespace a py block starts with binds every context
+    key (other than the two injected names, which hide context keys of those names — ADR 0001) to
+    the very object the context holds. -/
+theorem py_step_namespace_is_context_copy (ctx : Env) (x : String)
+    (h1 : x ≠ "__builtins__") (h2 : x ≠ "save") :
+    (pyStepNs ctx).get? x = ctx.get? x ∧
+    (pyStepNs ctx).get? "save" = some saveTok ∧
+    (pyStepNs ctx).get? "__builtins__" = some builtinsTok :=
+  ⟨pyStepNs_get? ctx x h1 h2, pyStepNs_save ctx, pyStepNs_builtins ctx⟩
+
+/-- in the example block `f`'s body and the lambda inside it read context key `a`; the class body
+    reads `len` (context, not builtin) -/
+example : (runPyStep 30 exSt exBlock).2.saved.get? "r" = some (.tok .ctx "a") ∧
+    clsGet (runPyStep 30 exSt exBlock).2.heap 3 "a" = some (.tok .ctx "len") := by
+  decide +kernel
+
+/-! ### 6. in-place mutation of a context value stays visible -/
+
+/-- `inplace_visible`: the context stores a REFERENCE; appending to the list cell behind it changes
+    the heap cell, not the context: afterwards the same key holds the same reference and the cell
+    has the new item at the end. -/
+theorem inplace_visible (st : St) (k : String) (r : Nat) (xs : List V) (w : V)
+    (hk : st.ctx.get? k = some (.ref r)) (hr : st.heap[r]? = some (.list xs)) :
+    (doAppend st (.ref r) w).ctx = st.ctx ∧
+    (doAppend st (.ref r) w).ctx.get? k = some (.ref r) ∧
+    (doAppend st (.ref r) w).heap[r]? = some (.list (xs ++ [w])) ∧
+    seqItems (doAppend st (.ref r) w).heap (.ref r) = some (xs ++ [w]) := by
+  have hlt : r < st.heap.length := by
+    rcases Nat.lt_or_ge r st.heap.length with h | h
+    · exact h
+    · rw [List.getElem?_eq_none h] at hr; cases hr
+  have h3 : (doAppend st (.ref r) w).heap[r]? = some (.list (xs ++ [w])) := by
+    simp only [doAppend, hr, St.heapSet]
+    exact List.getElem?_set_self hlt
+  refine ⟨?_, ?_, h3, ?_⟩
+  · simp [doAppend, hr, St.heapSet]
+  · simp [doAppend, hr, St.heapSet, hk]
+  · simp only [seqItems, h3]
+
+example : exSt.ctx.get? "L" = some (.ref 1) ∧ exSt.heap[1]? = some (.list [.cst 7]) := ⟨rfl, rfl⟩
+
+/-- `inplace_visible_py_step`: the py step hands the block a SHALLOW copy of the context
+    (`context.copy()`): the statement `k.append(n)` on a context key holding a list returns with the
+    context untouched, and the list behind the context's reference longer by `n` — the whole final
+    state, for every starting state. -/
+theorem inplace_visible_py_step (fuel : Nat) (st : St) (k : String) (r : Nat) (xs : List V) (n : Nat)
+    (h1 : k ≠ "__builtins__") (h2 : k ≠ "save")
+    (hk : st.ctx.get? k = some (.ref r)) (hr : st.heap[r]? = some (.list xs)) :
+    runPyStep (fuel + 2) st [.expr (.append (.name k) (.const n))] =
+      (.ok (), { st with heap := st.heap.set r (.list (xs ++ [.cst n])), ns := [] }) := by
+  simp [runPyStep, execBlock, execStmt, evalExpr, load, chainLoad, blockExplicit, Stmt.explicit,
+    Expr.compWalrus, loadName, localsGetItem, pyStepNs_get? _ _ h1 h2, hk, orElse, optRes,
+    appendable, hr, doAppend, St.heapSet]
+
+example : seqItems (runPyStep 2 exSt [.expr (.append (.name "L") (.const 9))]).2.heap (.ref 1) =
+    some [.cst 7, .cst 9] := by decide +kernel
+
+/-- `inplace_visible_eval`: the same through a `!py` expression: `k.append(n)` mutates the object
+    the context holds; the context itself is as before. -/
+theorem inplace_visible_eval (fuel : Nat) (st : St) (k : String) (r : Nat) (xs : List V) (n : Nat)
+    (hk : st.ctx.get? k = some (.ref r)) (hr : st.heap[r]? = some (.list xs)) :
+    runEval false (fuel + 2) st (.append (.name k) (.const n)) =
+      (.ok .none, { st with heap := st.heap.set r (.list (xs ++ [.cst n])), scratch := [] }) := by
+  simp [runEval, evalExpr, load, chainLoad, Expr.compWalrus, loadName, localsGetItem, hk, orElse,
+    optRes, appendable, hr, doAppend, St.heapSet, Env.get?]
+
+example : seqItems (runEval false 2 exSt (.append (.name "L") (.const 9))).2.heap (.ref 1) =
+    some [.cst 7, .cst 9] := by decide +kernel
+
+/-- `heap_not_rolled_back`: whatever a block does to heap cells is what the step returns — the step
+    drops its namespace dict and nothing else; together with `exec_frame` (unsaved keys keep their
+    references) every in-place mutation made by ANY block is visible through the context afterwards. -/
+theorem heap_not_rolled_back (fuel : Nat) (st : St) (b : List Stmt) :
+    (runPyStep fuel st b).2.heap =
+      (execBlock .exec fuel { kind := .module, chain := [], explicit := blockExplicit b } b
+        { st with ns := pyStepNs st.ctx }).2.heap := rfl
+
+example : (runPyStep 30 exSt exBlock).2.ctx.get? "L" = some (.ref 1) ∧
+    seqItems (runPyStep 30 exSt exBlock).2.heap (.ref 1) = some [.cst 7, .tok .ctx "a"] := by
+  decide +kernel
+
 end Pypyr.C14
